@@ -54,6 +54,7 @@ type Config struct {
 	AccessLog            bool
 	DispatchHook         bool
 	HookFailures         int  // the first k serve-start hook invocations fail
+	HookPanics           int  // ... the first of those by panicking instead of returning an error
 	NoHook               bool // no serve-start hook at all
 	BatchLimit           int
 	NoLanding            bool
@@ -63,6 +64,9 @@ type Config struct {
 
 // HookInv is one invocation of the serve-start hook.
 type HookInv struct {
+	// Panicked: this invocation failed by panicking (net/http recovers it and
+	// aborts that one connection).
+	Panicked bool
 	Index      int
 	Ex         *Exchange
 	OK         bool
@@ -101,6 +105,16 @@ type Exchange struct {
 }
 
 // SawHookFailure reports whether one of this request's own hook invocations failed.
+// SawHookPanic reports whether one of this request's own hook invocations panicked.
+func (x *Exchange) SawHookPanic() bool {
+	for _, inv := range x.Invs {
+		if inv.Panicked {
+			return true
+		}
+	}
+	return false
+}
+
 func (x *Exchange) SawHookFailure() bool {
 	for _, i := range x.Invs {
 		if i.Done && !i.OK {
@@ -167,6 +181,12 @@ func (w *World) serveStart(kind vgirpc.TransportKind, _ map[string]bool) error {
 	w.Sim.Y("servestart.work")
 	w.inflight--
 	inv.Done = true
+	if fail && inv.Index < w.Cfg.HookPanics {
+		inv.Panicked = true
+		w.Sim.Fault("serve-start-hook-panic")
+		w.Sim.Logf("serve-start hook invocation %d panics (kind=%s)", inv.Index, kind)
+		panic("scripted serve-start panic")
+	}
 	if fail {
 		w.Sim.Fault("serve-start-hook-failure")
 		w.Sim.Logf("serve-start hook invocation %d fails (kind=%s)", inv.Index, kind)
